@@ -485,6 +485,7 @@ theorem readFromListener_fl (lid : Lid) (as : List A) (g : G) (ha : AllAnn g) : 
     unfold readFromListener
     cases a <;> (try rfl)
     case eof => exact ih g ha
+    case dgramNoKey => exact ih g ha
     case dgram k =>
       simp only []
       cases hk : g.index k with
